@@ -831,6 +831,71 @@ fn registry(p: &Pools, cap: usize) -> Vec<Box<dyn TypeDyn>> {
     )
 }
 
+/// `type=Multi<Named> rest` -> (`type=Multi<*> rest`, `Named`) for the wrapper types.
+fn abstract_wrapper(sig: &str) -> Option<(String, String)> {
+    for w in ["Multi", "Places", "Bodies"] {
+        let pre = format!("type={}<", w);
+        if let Some(rest) = sig.strip_prefix(&pre) {
+            let mut depth = 1usize;
+            for (i, ch) in rest.char_indices() {
+                match ch {
+                    '<' => depth += 1,
+                    '>' => {
+                        depth -= 1;
+                        if depth == 0 {
+                            return Some((format!("type={}<*>{}", w, &rest[i + 1..]), rest[..i].to_string()));
+                        }
+                    }
+                    _ => {}
+                }
+            }
+        }
+    }
+    None
+}
+
+/// A finding on a wrapper type that shows up for (at least three of) the structurally plainest
+/// element types is a finding about the wrapper's own collections / placements, not about the
+/// element type: it is reported once, as `type=Multi<*> ...`, with the smallest witness.
+const PROBE_ELEMENTS: [&str; 4] = ["Unit0", "Named", "Tup2", "E1"];
+
+type Found = BTreeMap<String, (usize, String, &'static str, serde_json::Value)>;
+
+fn collapse_wrapper_findings(found: Found) -> Found {
+    let mut groups: BTreeMap<String, Vec<(String, String)>> = BTreeMap::new();
+    for sig in found.keys() {
+        if let Some((abs, elem)) = abstract_wrapper(sig) {
+            groups.entry(abs).or_default().push((elem, sig.clone()));
+        }
+    }
+    let mut out = found;
+    for (abs, members) in groups {
+        let probes = PROBE_ELEMENTS.iter().filter(|p| members.iter().any(|(e, _)| e == *p)).count();
+        if probes >= 3 {
+            let mut best: Option<(usize, String, &'static str, serde_json::Value)> = None;
+            let n = members.len();
+            for (_, sig) in &members {
+                if let Some(f) = out.remove(sig) {
+                    let better = match &best {
+                        None => true,
+                        Some(b) => (f.0, &f.1) < (b.0, &b.1),
+                    };
+                    if better {
+                        best = Some(f);
+                    }
+                }
+            }
+            if let Some(mut b) = best {
+                if let Some(obj) = b.3.as_object_mut() {
+                    obj.insert("element_types_affected".into(), json!(n));
+                }
+                out.insert(abs, b);
+            }
+        }
+    }
+    out
+}
+
 // ---------------------------------------------------------------------------------- main
 
 fn main() {
@@ -869,7 +934,9 @@ fn main() {
         let mut reproduced = false;
         for (sig, (_, _, leg, detail)) in found {
             // the replayed case may break other laws too; only the requested one is reported
-            if sig == want_sig {
+            let abstracted = abstract_wrapper(&sig).map(|a| a.0);
+            if sig == want_sig || abstracted.as_deref() == Some(want_sig.as_str()) {
+                let sig = want_sig.clone();
                 reproduced = true;
                 ctx.violation(leg, &sig, detail);
             }
@@ -1098,7 +1165,7 @@ fn main() {
         wall_s: wall_text * 0.3,
     });
 
-    let found = sink.found.into_inner().unwrap();
+    let found = collapse_wrapper_findings(sink.found.into_inner().unwrap());
     for (sig, (_, _, leg, detail)) in found {
         ctx.violation(leg, &sig, detail);
     }
